@@ -250,15 +250,19 @@ CHECKS = {
              "(any sizes, any bytes incl. CR LF inside the data) what the library's chunked writer emits decodes to exactly the concatenation of "
              "the chunks (hex size lines of any length proved to round-trip); for every input, malformed or not, the chunked decoder is total "
              "(no endless loop) and returns no more bytes than the input holds; a Content-Length body is exactly the next n bytes (all that "
-             "follows if the input ends), a close-delimited body everything that follows. Because the specification is a function of the "
-             "concatenated bytes, independence from fragmentation is what the correspondence establishes: the real incremental parser "
+             "follows if the input ends), a close-delimited body everything that follows; the incremental terminator search of "
+             "Message::append_bytes (each new fragment searched together with the 3 bytes before it) reports, for EVERY fragmentation of the "
+             "received bytes, the end of the header exactly where the first CRLF CRLF of the concatenation ends (look-back lemma + induction "
+             "over the fragment list; the driver runs it on the very fragments the harness delivers and the offsets are compared). For the "
+             "rest, because the specification is a function of the concatenated bytes, independence from fragmentation is what the "
+             "correspondence establishes: the real incremental parser "
              "(Message::append_bytes/receive_header), header index and the three body readers are run under ASan on generated valid requests and "
              "responses under whole / one-byte-per-recv / around-the-terminator / random fragmentations and read() sizes 1..100000 and must "
              "equal the compiled specification and the generator's intent; bodies written by the library's chunked and fixed-length writers "
              "are read back; malformed variants must neither crash nor exceed a step bound. Finding F16 shown by the check and repaired",
-        note="trusted: Lean kernel + 3 standard axioms; fragmentation independence of the implementation is NOT a theorem about the C++ "
-             "algorithm (incremental terminator search, 4 KB line buffer with memmove) but the observed agreement with a specification that cannot "
-             "depend on fragmentation; malformed input is checked only for memory safety (ASan, receive buffer poisoned with non-zero bytes) and "
+        note="trusted: Lean kernel + 3 standard axioms; apart from the header-terminator search, fragmentation independence of the "
+             "implementation (the chunked reader's 4 KB line buffer with memmove) is NOT a theorem about the C++ algorithm but the observed "
+             "agreement with a specification that cannot depend on fragmentation; malformed input is checked only for memory safety (ASan, receive buffer poisoned with non-zero bytes) and "
              "termination, its parse result is not compared; duplicate header names, Content-Range framing, trailers/chunk extensions, "
              "responses to HEAD with a chunked coding, URL parsing, client/server glue are not covered",
         technique="Lean 4 proof over an executable specification + differential correspondence under sanitizers across fragmentations",
